@@ -35,7 +35,7 @@ META = {
 
 def source_loop_types():
     found = []
-    for root, _, files in os.walk("/repo/src/tyme"):
+    for root, _, files in os.walk(os.path.join(os.environ.get("VERIF_REPO", "/repo"), "src/tyme")):
         for f in files:
             if f.endswith(".rs"):
                 s = open(os.path.join(root, f)).read()
@@ -45,7 +45,7 @@ def source_loop_types():
 
 def table_sizes():
     sizes = set([2, 4, 7, 12, 24, 60])
-    for root, _, files in os.walk("/repo/src/tyme"):
+    for root, _, files in os.walk(os.path.join(os.environ.get("VERIF_REPO", "/repo"), "src/tyme")):
         for f in files:
             if f.endswith(".rs"):
                 s = open(os.path.join(root, f)).read()
